@@ -40,6 +40,10 @@ class DecStub:
         raise PyExc(E.make_exc(E.lookup('rsocket/exceptions.py::ParseError'), 'undecodable'))
 
 
+# the local that tracks the buffer length, by role (robust against renaming): the left operand of the while test
+TOTAL = (('while_lhs',), ('assigned', 'len(self._buffer)'))
+
+
 def stream_spec(E, X0, dec, yields):
     def havoc(ctx):
         c = E.fresh_int('consumed', 0)
@@ -49,12 +53,12 @@ def stream_spec(E, X0, dec, yields):
         ctx.ghost['nyields'] = len(yields)
         buf = M.b_slice(E, X0, c, None)
         ctx.self.attrs['_buffer'] = SByteArray(buf)
-        ctx.env.vars['total'] = mk_int(lift_bytes(buf).len_term())
+        ctx.set_local('total', mk_int(lift_bytes(buf).len_term()), *TOTAL)
 
     def inv(ctx):
         s = ctx.self
         buf = lift_bytes(s.attrs['_buffer'])
-        total = I(ctx['total'])
+        total = I(ctx.local('total', *TOTAL))
         if ctx.phase == 'entry':
             return [('buffer = B++d', M.b_eq_goal(E, buf, X0, 'e')), ('total = len(buffer)', total == buf.len_term())]
         if ctx.phase == 'head':
@@ -84,7 +88,7 @@ def stream_spec(E, X0, dec, yields):
         return out
 
     def variant(ctx):
-        return I(ctx['total'])
+        return I(ctx.local('total', *TOTAL))
     return LoopSpec(inv, variant, havoc=havoc, modifies=['total', 'self._buffer'])
 
 
@@ -152,15 +156,15 @@ def message_spec(E, d, dec, yields):
         ctx.ghost['decoded'] = 0 if first else 1
         if first:
             ctx.self.attrs['_buffer'] = SByteArray(lift_bytes(d))
-            ctx.env.vars['total'] = mk_int(dl)
+            ctx.set_local('total', mk_int(dl), *TOTAL)
         else:
             E.assume(dl > 0)
             ctx.self.attrs['_buffer'] = SByteArray(lift_bytes(b''))
-            ctx.env.vars['total'] = 0
+            ctx.set_local('total', 0, *TOTAL)
 
     def inv(ctx):
         buf = lift_bytes(ctx.self.attrs['_buffer'])
-        total = I(ctx['total'])
+        total = I(ctx.local('total', *TOTAL))
         if ctx.phase == 'entry':
             return [('buffer = message', M.b_eq_goal(E, buf, d, 'e')), ('total = len(message)', total == dl)]
         if ctx.phase == 'head':
@@ -168,7 +172,7 @@ def message_spec(E, d, dec, yields):
         decoded = ctx.ghost['decoded'] + len(dec.calls) - ctx.ghost['ncalls']
         return [('back at the loop head only after exactly one decode, with nothing left, and unable to decode again',
                  z3.And(decoded == 1, buf.len_term() == 0, total == 0, dl > 0))]
-    return LoopSpec(inv, lambda ctx: I(ctx['total']), havoc=havoc, modifies=['total', 'self._buffer'])
+    return LoopSpec(inv, lambda ctx: I(ctx.local('total', *TOTAL)), havoc=havoc, modifies=['total', 'self._buffer'])
 
 
 @harness('c04.receive_data[message]', ['C04', 'C12', 'C01'], functions=[RECV], replay='c04_message',
